@@ -262,7 +262,7 @@ def main(prop, argv=None):
     exit_code = EXIT_OK
     os.makedirs(REPLAY_DIR, exist_ok=True)
     shrink_budget = 45.0 if tier == "quick" else 120.0
-    max_classes = 12
+    max_classes = 25
     for ci, (ck, items) in enumerate(sorted(classes.items())):
         if ci >= max_classes:
             print(f"(further {len(classes) - max_classes} violation classes not minimised)")
